@@ -1028,7 +1028,8 @@ func TestVerif_C19(t *testing.T) {
 	if err != nil {
 		t.Fatal(err)
 	}
-	emit := func(id string, cs *c19Case, seed uint64) {
+	// enumIdx >= 0: the case is element enumIdx of its family's enumeration (the replay record stays small)
+	emit := func(id string, cs *c19Case, seed uint64, enumIdx int) {
 		if err := cs.validate(); err != nil {
 			t.Fatalf("case %s: %v", id, err)
 		}
@@ -1045,13 +1046,21 @@ func TestVerif_C19(t *testing.T) {
 		}
 		def := cs.coq(obs)
 		feats := []string{"family-" + cs.Family}
-		if err := w.Add(id, def, "C19_check", map[string]interface{}{"seed": seed, "features": feats, "spec": cs}); err != nil {
+		replay := map[string]interface{}{"seed": seed, "features": feats, "spec": cs}
+		if enumIdx >= 0 {
+			replay = map[string]interface{}{"features": feats, "enum": cs.Family, "index": enumIdx}
+		}
+		if err := w.Add(id, def, "C19_check", replay); err != nil {
 			t.Fatal(err)
 		}
 		// distribution
 		w.Count("family-" + cs.Family)
 		w.Count(fmt.Sprintf("calls-%d", len(cs.Calls)))
-		w.Count("mode-" + cs.Mode)
+		if cs.Mode == "" {
+			w.Count("mode-empty-string")
+		} else {
+			w.Count("mode-" + cs.Mode)
+		}
 		if cs.Etag {
 			w.Count("etag-on")
 		} else {
@@ -1144,13 +1153,27 @@ func TestVerif_C19(t *testing.T) {
 		}
 		var rf struct {
 			Case struct {
-				Spec c19Case `json:"spec"`
+				Spec  *c19Case `json:"spec"`
+				Enum  string   `json:"enum"`
+				Index int      `json:"index"`
 			} `json:"case"`
 		}
 		if err := json.Unmarshal(data, &rf); err != nil {
 			t.Fatal(err)
 		}
-		emit("replay", &rf.Case.Spec, 0)
+		cs := rf.Case.Spec
+		switch rf.Case.Enum {
+		case "single":
+			cs = c19Single(rf.Case.Index)
+		case "interleave-2":
+			cs = c19Sched(2, rf.Case.Index)
+		case "interleave-3":
+			cs = c19Sched(3, rf.Case.Index)
+		}
+		if cs == nil {
+			t.Fatalf("replay file %s holds no C19 case", env.Replay)
+		}
+		emit("replay", cs, 0, -1)
 		if err := w.Close(nil); err != nil {
 			t.Fatal(err)
 		}
@@ -1158,7 +1181,7 @@ func TestVerif_C19(t *testing.T) {
 	}
 
 	for i, cs := range c19Corpus() {
-		emit(fmt.Sprintf("k%d", i), cs, 0)
+		emit(fmt.Sprintf("k%d", i), cs, 0, -1)
 	}
 	n := env.N
 	if n == 0 {
@@ -1168,7 +1191,7 @@ func TestVerif_C19(t *testing.T) {
 	if os.Getenv("VERIF_ADV") == "1" {
 		for i := 0; i < n; i++ {
 			r, seed := root.Fork()
-			emit(fmt.Sprintf("h%d", i), c19Random(r, true), seed)
+			emit(fmt.Sprintf("h%d", i), c19Random(r, true), seed, -1)
 		}
 	} else {
 		nS, n2, n3 := c19NumSingles(), c19NumScheds(2), c19NumScheds(3)
@@ -1177,7 +1200,7 @@ func TestVerif_C19(t *testing.T) {
 		sample := func(prefix string, total, want int, mk func(int) *c19Case) {
 			if exhaustive || want >= total {
 				for i := 0; i < total; i++ {
-					emit(fmt.Sprintf("%s%d", prefix, i), mk(i), 0)
+					emit(fmt.Sprintf("%s%d", prefix, i), mk(i), 0, i)
 				}
 				return
 			}
@@ -1189,7 +1212,7 @@ func TestVerif_C19(t *testing.T) {
 					continue
 				}
 				seen[i] = true
-				emit(fmt.Sprintf("%s%d", prefix, i), mk(i), 0)
+				emit(fmt.Sprintf("%s%d", prefix, i), mk(i), 0, i)
 			}
 		}
 		rest := n - nRandom
@@ -1198,7 +1221,7 @@ func TestVerif_C19(t *testing.T) {
 		sample("t", n3, rest-rest*45/100-rest*15/100, func(i int) *c19Case { return c19Sched(3, i) })
 		for i := 0; i < nRandom; i++ {
 			r, seed := root.Fork()
-			emit(fmt.Sprintf("x%d", i), c19Random(r, i%4 == 3), seed)
+			emit(fmt.Sprintf("x%d", i), c19Random(r, i%4 == 3), seed, -1)
 		}
 		w.Counts["enumeration-singles"] = nS
 		w.Counts["enumeration-interleavings-2"] = n2
